@@ -421,6 +421,52 @@ def container_state_checks(ctx, g):
                     return
 
 
+def teacher_node_checks(ctx, g):
+    """online training of a node or a model with a teacher NODE as target: a teacher whose (already fixed) output size
+    disagrees with the trained node's is rejected before any state, parameter or registration is touched; a teacher of
+    the right size is accepted"""
+    import reservoirpy.nodes as N
+    ob = "teacher_nodes"
+    o = g.randint(1, 2)
+    wrong = o + g.randint(1, 2)
+    rule = g.choice(["LMS", "RLS"])
+
+    def arr(*shape):
+        return np.array([g.dy(a=2, k=8) for _ in range(int(np.prod(shape)))], dtype=float).reshape(shape)
+    for where in ("model", "node"):
+        for size, ok in ((o, True), (wrong, False)):
+            for force in (True, False):
+                c = {"kind": "teacher_nodes", "where": where, "o": o, "teacher_dim": size, "rule": rule, "force_teachers": force}
+                teacher = N.Tanh()
+                teacher.run(arr(3, size))
+                res, ro = N.Reservoir(4, seed=5), getattr(N, rule)(o)
+                if where == "model":
+                    target = res >> ro
+                    target.train(arr(4, 2), arr(4, o))
+                    nodes = [res, ro]
+                    call = lambda: target.train(arr(3, 2), {ro.name: teacher}, force_teachers=force)
+                else:
+                    ro.train(arr(4, 4), arr(4, o))
+                    nodes = [ro]
+                    call = lambda: ro.train(arr(3, 4), teacher)
+                before = [digest(n) for n in nodes]
+                r = common.exc_class(call)
+                ctx.count(c, nontrivial=True, obligation=ob)
+                ctx.stat(f"teacher_nodes {where} ok={ok}")
+                if ok:
+                    if r[0] != "ok":
+                        ctx.violation(f"training a {where} with a teacher node of the right size ({size}) raised {r[1]}", c, obligation=ob)
+                        return
+                    continue
+                if r[0] == "ok":
+                    ctx.violation(f"training a {where} accepted a teacher node whose output size {size} differs from the trained node's {o}", c, obligation=ob)
+                    return
+                if [digest(n) for n in nodes] != before or getattr(ro, "_teacher", None) is not None:
+                    ctx.violation(f"training a {where} rejected ({r[1]}) a teacher node of the wrong size ({size} for {o}) only after a state / parameter had been "
+                                  f"modified or leaving the teacher registered (force_teachers={force})", c, obligation=ob)
+                    return
+
+
 def link_dims_checks(ctx, g):
     """C12 for `ops.py`: linking already initialised nodes whose dimensions disagree is rejected at
     construction, also when an operand is a model; matching dimensions are accepted"""
@@ -488,6 +534,8 @@ def run(ctx):
         fit_container_checks(ctx, g)
     for _ in range(ctx.n(6, 60)):
         container_state_checks(ctx, g)
+    for _ in range(ctx.n(4, 40)):
+        teacher_node_checks(ctx, g)
     names = sorted(specs())
     for _ in range(ctx.n(12, 150)):
         for cls in names:
@@ -502,6 +550,10 @@ def replay(ctx, data):
         common.quiet()
         for _ in range(6):
             fit_container_checks(ctx, ctx.gen)
+    elif data["case"].get("kind") == "teacher_nodes":
+        common.quiet()
+        for _ in range(4):
+            teacher_node_checks(ctx, ctx.gen)
     elif data["case"].get("kind") == "containers":
         common.quiet()
         for _ in range(6):
